@@ -129,22 +129,199 @@ Theorem C02_hide_casketfile_inside_root :
 Proof. exact hide_casketfile_inside. Qed.
 Print Assumptions C02_hide_casketfile_inside_root.
 
-(* ... hence, for EVERY spelling of EVERY request path, no body — identity-encoded or a
-   precompressed sibling — is the Casketfile (compared as os.SameFile does: hard links included). *)
+(* hideCasketfile runs once over the list of ALL site configs of the Casketfile (one per address
+   of every server block).  Whatever the list — any number of sites, any roots, in any order — every
+   site config gets ITS entry: the pass never stops early on a site whose root does not contain the
+   Casketfile, and what a site gets does not depend on the sites declared before or after it. *)
+Theorem C02_hide_casketfile_every_site :
+  forall cfgs : list sconf,
+  (forall c, In c cfgs -> sc_origin c <> []) ->
+  length (hide_casketfile_all cfgs) = length cfgs /\
+  forall i c, nth_error cfgs i = Some c -> nth i (hide_casketfile_all cfgs) [] = hide_entry c.
+Proof. exact hide_all_every_site. Qed.
+Print Assumptions C02_hide_casketfile_every_site.
+
+(* `a { root /srv/a }  b { root /srv }` loaded from /srv/Casketfile, and the other order *)
+Example C02_hide_casketfile_every_site_nonvacuous :
+  let a := {| sc_root := bs "/srv/a"; sc_origin := bs "/srv/Casketfile" |} in
+  let b := {| sc_root := bs "/srv"; sc_origin := bs "/srv/Casketfile" |} in
+  let x := {| sc_root := bs "/sr"; sc_origin := bs "/srv/Casketfile" |} in
+  hide_casketfile_all [a; b] = [[]; [bs "/Casketfile"]] /\
+  hide_casketfile_all [b; a] = [[bs "/Casketfile"]; []] /\
+  hide_casketfile_all [a; x; a; b; b] = [[]; [bs "v/Casketfile"]; []; [bs "/Casketfile"]; [bs "/Casketfile"]].
+Proof. vm_compute. repeat split. Qed.
+
+(* the one early return the code has: a site config WITHOUT an origin (configuration not loaded from
+   a file) ends the pass; it and every later one get nothing.  (All site configs of an instance
+   share their origin, so this never separates two sites of one Casketfile.) *)
+Theorem C02_hide_casketfile_stops_at_missing_origin :
+  forall pre c post,
+  sc_origin c = [] -> (forall x, In x pre -> sc_origin x <> []) ->
+  hide_casketfile_all (pre ++ c :: post) = map hide_entry pre ++ map (fun _ => []) (c :: post).
+Proof. exact hide_all_stops. Qed.
+Print Assumptions C02_hide_casketfile_stops_at_missing_origin.
+
+Example C02_hide_casketfile_stops_nonvacuous :
+  hide_casketfile_all [{| sc_root := bs "/srv"; sc_origin := bs "/srv/Casketfile" |};
+                       {| sc_root := bs "/srv"; sc_origin := [] |};
+                       {| sc_root := bs "/srv"; sc_origin := bs "/srv/Casketfile" |}]
+  = [[bs "/Casketfile"]; []; []].
+Proof. vm_compute. reflexivity. Qed.
+
+(* the root "/" : the entry is the origin without its leading slash, and the jail opens the origin *)
+Theorem C02_hide_casketfile_root_is_slash :
+  forall name, hide_casketfile [SLASH] (jail name) = Some (tl (jail name)) /\ jail (tl (jail name)) = jail name.
+Proof. exact hide_casketfile_root_slash. Qed.
+Print Assumptions C02_hide_casketfile_root_is_slash.
+
+(* hideCasketfile's test is a STRING-prefix test on the absolute paths, nothing else *)
+Theorem C02_hide_casketfile_iff_string_prefix :
+  forall root origin h,
+  hide_casketfile root origin = Some h <->
+  origin <> [] /\ has_prefix origin root = true /\ h = skipn (List.length root) origin.
+Proof. exact hide_casketfile_iff. Qed.
+Print Assumptions C02_hide_casketfile_iff_string_prefix.
+
+(* It never UNDER-hides: whenever the origin lies component-wise inside the root — [reroot], the
+   containment test of the executable origin clause the multi-site cases are judged by, which knows
+   nothing of string prefixes — for a tree at ANY place [base], a root at ANY cleaned place [rootrel]
+   of it ("/" = the tree itself) and ANY origin below, the site gets an entry, and the jail opens
+   that entry at exactly the origin's place inside the root. *)
+Theorem C02_origin_inside_root_is_hidden :
+  forall base rootrel x p,
+  reroot rootrel (jail x) = Some p ->
+  exists h, hide_casketfile (abs_of base rootrel) (base ++ jail x) = Some h /\ jail h = p /\ jail p = p.
+Proof. exact origin_inside_root_is_hidden. Qed.
+Print Assumptions C02_origin_inside_root_is_hidden.
+
+Example C02_origin_inside_root_nonvacuous :
+  map (fun d => reroot (bs d) (jail (bs "www/./Casketfile")))
+      ["/"; "/www"; "/www/pub"; "/ww"; "/other"; "/www/Casketfile"]
+  = [Some (bs "/www/Casketfile"); Some (bs "/Casketfile"); None; None; None; Some [SLASH]].
+Proof. vm_compute. reflexivity. Qed.
+
+(* The converse is FALSE of the code: an entry is also made for a root that merely is a string
+   prefix of the origin's path (root /srv/ww, Casketfile in /srv/www): the entry "w/Casketfile" then
+   hides an unrelated file INSIDE the root (the jail keeps it there: C02_clean_rooted_jail) — an
+   over-hiding, never a disclosure. *)
+Theorem C02_hide_casketfile_only_inside_refuted :
+  exists root origin h, hide_casketfile root origin = Some h /\ reroot root origin = None.
+Proof. exists (bs "/srv/ww"), (bs "/srv/www/Casketfile"), (bs "w/Casketfile"). vm_compute. split; reflexivity. Qed.
+Print Assumptions C02_hide_casketfile_only_inside_refuted.
+
+(* ... hence, for EVERY list of site configs, EVERY position in it whose root contains the origin
+   Casketfile, EVERY spelling of EVERY request path and EVERY site path prefix: no body —
+   identity-encoded or a precompressed sibling — is the Casketfile (compared as os.SameFile does:
+   hard links included).  [hide] is any hide list containing that site's entry of the pass (the
+   `internal` paths come on top). *)
 Theorem C02_casketfile_never_served :
+  forall (cfgs : list sconf) (i : nat) (c : sconf) name fs hide cf,
+  (forall x, In x cfgs -> sc_origin x <> []) ->
+  nth_error cfgs i = Some c ->
+  sc_origin c = sc_root c ++ jail name ->
+  (forall h, In h (nth i (hide_casketfile_all cfgs) []) -> In h hide) ->
+  fs_open fs (jail name) = Some cf ->
+  forall pages prefix m req ae n enc,
+  serve_file fs hide pages prefix m req ae = Serve n enc -> n_id n <> n_id cf.
+Proof. exact multi_casketfile_never_served. Qed.
+Print Assumptions C02_casketfile_never_served.
+
+(* the second of two sites, after a site whose root does not contain the Casketfile *)
+Example C02_casketfile_never_served_nonvacuous :
+  let cfgs := msite_confs [bs "/base/www/pub"; bs "/base/www/"] (bs "/base/www/Casketfile") in
+  nth 1 (hide_casketfile_all cfgs) [] = [bs "/Casketfile"] /\
+  map (fun p => handle (msite [bs "/base/www/pub"; bs "/base/www/"] (bs "/base/www/Casketfile") 1 (bs "/www") [SLASH] [bs "zip"])
+                       (mkreq 0 (bs p) [] [] []))
+      ["/Casketfile"; "//x/../Casketfile"; "/links/hard-casket"]
+  = [Status 404; Status 404; Status 404] /\
+  handle (msite [bs "/base/www/pub"; bs "/base/www/"] (bs "/base/www/Casketfile") 0 (bs "/www/pub") [SLASH] [bs "zip"])
+         (mkreq 0 (bs "/Casketfile") [] [] [])
+  = Serve {| n_path := bs "/Casketfile"; n_dir := false; n_id := 222 |} None.
+Proof. vm_compute. repeat split. Qed.
+
+(* the statement for one site (the list [c], position 0) *)
+Theorem C02_casketfile_never_served_one_site :
   forall fs hide pages root name cf m req ae h,
   hide_casketfile root (root ++ jail name) = Some h -> In h hide ->
   fs_open fs (jail name) = Some cf ->
   forall n enc, serve_file fs hide pages [SLASH] m req ae = Serve n enc -> n_id n <> n_id cf.
 Proof. exact casketfile_never_served. Qed.
-Print Assumptions C02_casketfile_never_served.
+Print Assumptions C02_casketfile_never_served_one_site.
+
+(* neither is it listed, nor packed into an archive *)
+Theorem C02_casketfile_never_listed_nor_archived :
+  forall (cfgs : list sconf) (i : nat) (c : sconf) name fs hide cf,
+  (forall x, In x cfgs -> sc_origin x <> []) ->
+  nth_error cfgs i = Some c ->
+  sc_origin c = sc_root c ++ jail name ->
+  (forall h, In h (nth i (hide_casketfile_all cfgs) []) -> In h hide) ->
+  fs_open fs (jail name) = Some cf ->
+  forall pages prefix confs m req ae archive limit,
+  (forall kids, browse fs hide pages prefix confs m req ae archive limit = Listing kids ->
+                forall k, In k kids -> n_id k <> n_id cf) /\
+  (forall ms, browse fs hide pages prefix confs m req ae archive limit = Archive ms ->
+              forall k, In k ms -> n_id k <> n_id cf).
+Proof.
+  intros cfgs i c name fs hide cf H1 H2 H3 H4 H5 pages prefix confs m req ae archive limit. split.
+  - intros kids. exact (multi_casketfile_never_listed cfgs i c name fs hide cf H1 H2 H3 H4 H5 pages prefix confs m req ae archive limit kids).
+  - intros ms. exact (multi_casketfile_never_archived cfgs i c name fs hide cf H1 H2 H3 H4 H5 pages prefix confs m req ae archive limit ms).
+Qed.
+Print Assumptions C02_casketfile_never_listed_nor_archived.
+
+Example C02_casketfile_never_listed_nor_archived_nonvacuous :
+  let s := msite [bs "/base/other"; bs "/base"; bs "/base/www"] (bs "/base/www/Casketfile") 1 [SLASH] [SLASH] [bs "zip"] in
+  match handle s (mkreq 0 (bs "/www/") [] [] []), handle s (mkreq 0 (bs "/www/") [] (bs "zip") []) with
+  | Listing kids, Archive ms =>
+      (map (fun k => n_path k) kids, existsb (fun k => n_id k =? 214) ms, existsb (fun k => n_id k =? 215) ms)
+  | _, _ => ([], true, false)
+  end = ([bs "/www/a.txt"; bs "/www/a.txt.gz"; bs "/www/hid.txt"; bs "/www/links"; bs "/www/pub"], false, true).
+Proof. vm_compute. reflexivity. Qed.
+
+(* the whole handler chain (internal -> browse -> static) of the site config at ANY position of ANY
+   multi-site Casketfile, as the harness builds it ([msite]: the site's root is a sub-tree of the
+   tree the Casketfile lives in; roots as written in the Casketfile, cleaned as filepath.Abs does) *)
+Theorem C02_multisite_casketfile_never_disclosed :
+  forall roots origin pos root rootrel scope types name cf (r : request),
+  origin <> [] -> nth_error roots pos = Some root ->
+  abs_path origin = abs_path root ++ jail name ->
+  fs_open (subtree mtree_fs rootrel) (jail name) = Some cf ->
+  match handle (msite roots origin pos rootrel scope types) r with
+  | Serve n _ => n_id n <> n_id cf
+  | Listing kids => forall k, In k kids -> n_id k <> n_id cf
+  | Archive ms => forall k, In k ms -> n_id k <> n_id cf
+  | _ => True
+  end.
+Proof. exact msite_casketfile_never_disclosed. Qed.
+Print Assumptions C02_multisite_casketfile_never_disclosed.
+
+Example C02_multisite_nonvacuous :
+  abs_path (bs "/base/www/Casketfile") = abs_path (bs "/base/x/../") ++ jail (bs "www/Casketfile") /\
+  fs_open (subtree mtree_fs [SLASH]) (jail (bs "www/Casketfile")) =
+    Some {| n_path := bs "/www/Casketfile"; n_dir := false; n_id := 214 |}.
+Proof. vm_compute. split; reflexivity. Qed.
+
+(* what a site whose root is a sub-directory shows is that sub-tree: every node comes from a node
+   of the tree at or (component-wise) below the directory, with its identity *)
+Theorem C02_subtree_inside :
+  forall fs d n, In n (subtree fs d) ->
+  exists n0, In n0 fs /\ n_id n = n_id n0 /\ n_dir n = n_dir n0 /\
+    ((d = [SLASH] /\ n_path n = n_path n0) \/
+     (n_path n0 = d /\ n_path n = [SLASH]) \/
+     (is_desc d (n_path n0) = true /\ n_path n = SLASH :: rel_name d (n_path n0))).
+Proof. exact subtree_inside. Qed.
+Print Assumptions C02_subtree_inside.
+
+Example C02_subtree_nonvacuous :
+  map (fun n => n_path n) (subtree mtree_fs (bs "/ww")) =
+  [bs "/"; bs "/Casketfile"; bs "/q.txt"; bs "/w"; bs "/w/Casketfile"].
+Proof. vm_compute. reflexivity. Qed.
 
 (* ---- directory listings -------------------------------------------------------------------- *)
 (* Everything a listing names is a child of the cleaned directory inside the tree and is not
    hidden. *)
 Theorem C02_listing_inside_root_never_hidden :
-  forall fs hide pages prefix confs m req ae archive kids,
-  browse fs hide pages prefix confs m req ae archive = Listing kids ->
+  forall fs hide pages prefix confs m req ae archive limit kids,
+  browse fs hide pages prefix confs m req ae archive limit = Listing kids ->
   forall k, In k kids ->
     In k fs /\ is_child (jail req) (n_path k) = true /\ is_hidden fs hide k = false.
 Proof. exact listing_sound. Qed.
@@ -152,19 +329,88 @@ Print Assumptions C02_listing_inside_root_never_hidden.
 
 Example C02_listing_nonvacuous :
   match browse fixture_fs gen_c02_hide gen_default_index_pages [SLASH] [{| b_scope := [SLASH]; b_types := [] |}]
-               0 (bs "//dir/../") [] [] with
+               0 (bs "//dir/../") [] [] [] with
   | Listing kids => existsb (fun k => beq (n_path k) (bs "/a.txt")) kids &&
                     negb (existsb (fun k => beq (n_path k) (bs "/Casketfile")) kids)
   | _ => false
   end = true.
 Proof. vm_compute. reflexivity. Qed.
 
+(* sort, order and limit (and the format, HTML or JSON) select and order entries of the SAME filtered
+   list: a listing is issued only for a limit strconv.Atoi accepts, and which entries are candidates
+   does not depend on the limit — the cut comes after the hidden entries are taken out. *)
+Theorem C02_listing_independent_of_limit :
+  forall fs hide pages prefix confs m req ae archive l1 l2 k1 k2,
+  browse fs hide pages prefix confs m req ae archive l1 = Listing k1 ->
+  browse fs hide pages prefix confs m req ae archive l2 = Listing k2 ->
+  k1 = k2 /\ limit_of l1 <> None /\ limit_of l2 <> None.
+Proof.
+  intros fs hide pages prefix confs m req ae archive l1 l2 k1 k2 H1 H2. split; [|split].
+  - exact (listing_independent_of_limit _ _ _ _ _ _ _ _ _ _ _ _ _ H1 H2).
+  - exact (listing_limit_ok _ _ _ _ _ _ _ _ _ _ _ H1).
+  - exact (listing_limit_ok _ _ _ _ _ _ _ _ _ _ _ H2).
+Qed.
+Print Assumptions C02_listing_independent_of_limit.
+
+Example C02_listing_limit_nonvacuous :
+  map (fun l => match browse fixture_fs gen_c02_hide gen_default_index_pages [SLASH] [{| b_scope := [SLASH]; b_types := [] |}]
+                             0 [SLASH] [] [] (bs l) with
+                | Listing kids => N.of_nat (length kids) | Status c => c | _ => 0 end)
+      [""; "2"; "+2"; "-1"; "007"; "9223372036854775807"; "9223372036854775808"; "-9223372036854775808"; "abc"; "1e3"; "-"; " 1"; "1_0"]
+  = [22; 22; 22; 22; 22; 22; 400; 22; 400; 400; 400; 400; 400].
+Proof. vm_compute. reflexivity. Qed.
+
+(* The numbers an HTML listing announces ("N directories, M files").  The statement one wants —
+   they count what the listing lists — is FALSE of the code: directoryListing counts every entry
+   BEFORE the IsHidden test, so a listing discloses how many hidden entries its directory has
+   (finding F-C02-6; witness: the fixture's root announces 16 files and lists 14). *)
+Theorem C02_listing_counts_refuted :
+  exists fs hide pages confs req kids,
+  browse fs hide pages [SLASH] confs 0 req [] [] [] = Listing kids /\
+  announced_counts fs (jail req) <> (count_kind true kids, count_kind false kids).
+Proof.
+  exists fixture_fs, gen_c02_hide, gen_default_index_pages, [{| b_scope := [SLASH]; b_types := [] |}], [SLASH].
+  eexists. split; [vm_compute; reflexivity|]. vm_compute. discriminate.
+Qed.
+Print Assumptions C02_listing_counts_refuted.
+
+(* what holds: a listing never announces fewer entries than it lists, and exactly as many when no
+   entry of the directory is hidden *)
+Theorem C02_listing_counts_partial :
+  forall fs hide pages prefix confs m req ae archive limit kids,
+  browse fs hide pages prefix confs m req ae archive limit = Listing kids ->
+  count_kind true kids <= fst (announced_counts fs (jail req)) /\
+  count_kind false kids <= snd (announced_counts fs (jail req)) /\
+  ((forall k, In k (children fs (jail req)) -> is_hidden fs hide k = false) ->
+   announced_counts fs (jail req) = (count_kind true kids, count_kind false kids)).
+Proof. exact listing_counts_partial. Qed.
+Print Assumptions C02_listing_counts_partial.
+
+Example C02_listing_counts_nonvacuous :
+  announced_counts fixture_fs [SLASH] = (10, 16) /\
+  announced_counts fixture_fs (bs "/dir") = (2, 3) /\
+  (forall k, In k (children fixture_fs (bs "/dir")) -> is_hidden fixture_fs gen_c02_hide k = false).
+Proof.
+  split; [vm_compute; reflexivity|]. split; [vm_compute; reflexivity|].
+  intros k Hk. vm_compute in Hk. repeat (destruct Hk as [<-|Hk]; [vm_compute; reflexivity|]). destruct Hk.
+Qed.
+
+(* ---- HEAD ----------------------------------------------------------------------------------- *)
+(* A HEAD request is answered as the GET request for the same target, query and headers would be:
+   the same status, the same redirect, the headers of the same file (the harness identifies the file
+   a HEAD answer describes by its ETag, Content-Length and Last-Modified, and holds it to the rules
+   a GET body is held to).  Whatever is true of GET answers above is true of HEAD answers. *)
+Theorem C02_head_like_get :
+  forall (s : site) p ae archive limit, handle s (mkreq 1 p ae archive limit) = handle s (mkreq 0 p ae archive limit).
+Proof. exact head_like_get. Qed.
+Print Assumptions C02_head_like_get.
+
 (* ---- archives ------------------------------------------------------------------------------- *)
 (* Every member of an archive is a node of the tree strictly below the cleaned directory
    (in particular lexically inside it, hence inside the root). *)
 Theorem C02_archive_inside_root :
-  forall fs hide pages prefix confs m req ae archive ms,
-  browse fs hide pages prefix confs m req ae archive = Archive ms ->
+  forall fs hide pages prefix confs m req ae archive limit ms,
+  browse fs hide pages prefix confs m req ae archive limit = Archive ms ->
   forall k, In k ms ->
     In k fs /\ is_desc (jail req) (n_path k) = true /\ has_prefix (n_path k) (jail req) = true.
 Proof. exact archive_inside_root. Qed.
@@ -175,8 +421,8 @@ Print Assumptions C02_archive_inside_root.
    member lies below a hidden directory inside the archived one — the walker applies the IsHidden
    test of the listing to every entry and does not descend into a hidden directory. *)
 Theorem C02_archive_never_hidden :
-  forall fs hide pages prefix confs m req ae archive ms,
-  browse fs hide pages prefix confs m req ae archive = Archive ms ->
+  forall fs hide pages prefix confs m req ae archive limit ms,
+  browse fs hide pages prefix confs m req ae archive limit = Archive ms ->
   forall k, In k ms ->
     is_hidden fs hide k = false /\
     (forall a, In a fs -> n_dir a = true -> is_desc (jail req) (n_path a) = true ->
@@ -186,7 +432,7 @@ Print Assumptions C02_archive_never_hidden.
 
 Example C02_archive_never_hidden_nonvacuous :
   match browse fixture_fs gen_c02_hide gen_default_index_pages [SLASH] [{| b_scope := [SLASH]; b_types := gen_archive_types |}]
-               0 [SLASH] [] (bs "zip") with
+               0 [SLASH] [] (bs "zip") [] with
   | Archive ms => map (fun p => existsb (fun k => beq (n_path k) (bs p)) ms)
                       ["/a.txt"; "/dir/sub/d.txt"; "/Casketfile"; "/links/hard-casket"; "/secret.txt"; "/hsib.txt.gz";
                        "/hdir"; "/hdir/in.txt"]%string
@@ -222,16 +468,16 @@ Proof. vm_compute. reflexivity. Qed.
    the static file server's, or the static file server's behind it) stays on the origin, however
    the request path is spelled. *)
 Theorem C02_browse_redirect_same_origin :
-  forall fs hide pages prefix confs m req ae archive code loc,
+  forall fs hide pages prefix confs m req ae archive limit code loc,
   rooted prefix -> rooted req ->
-  browse fs hide pages prefix confs m req ae archive = Redirect code loc ->
+  browse fs hide pages prefix confs m req ae archive limit = Redirect code loc ->
   one_slash loc = true /\ same_origin loc = true.
 Proof. exact browse_redirect. Qed.
 Print Assumptions C02_browse_redirect_same_origin.
 
 Example C02_browse_redirect_nonvacuous :
   map (fun p => browse fixture_fs gen_c02_hide gen_default_index_pages [SLASH] [{| b_scope := [SLASH]; b_types := [] |}]
-                       0 (bs p) [] [])
+                       0 (bs p) [] [] [])
       ["/x/..//dir/sub"; "//evil.example/.."; "///evil.example/../dir"; "/\evil.example/../dir"]%string
   = [Redirect 301 (bs "/dir/sub/"); Redirect 301 (bs "/"); Redirect 301 (bs "/dir/"); Redirect 301 (bs "/dir/")].
 Proof. vm_compute. reflexivity. Qed.
@@ -262,7 +508,7 @@ Proof. exact site_sound. Qed.
 Print Assumptions C02_site_sound.
 
 Example C02_site_sound_nonvacuous :
-  map (fun p => match handle (mksite (bs "/srv/www") (bs "/srv/www/Casketfile") [SLASH] [SLASH] gen_archive_types) (mkreq 0 (bs p) (bs "br") []) with
+  map (fun p => match handle (mksite (bs "/srv/www") (bs "/srv/www/Casketfile") [SLASH] [SLASH] gen_archive_types) (mkreq 0 (bs p) (bs "br") [] []) with
                 | Serve n _ => n_id n | Listing k => 1000 + N.of_nat (length k) | Redirect c _ => c
                 | Status c => c | Archive _ => 2000 end)
       ["/a.txt"; "/dir/"; "/dir"; "/secret.txt"; "/Casketfile/."]
